@@ -167,10 +167,12 @@ def run(prop, cfg, tier, seed):
         cl, il, why = sr.known_samples[uid]
         sr.oracle_viol.append((cl, il, "", "defect class %s (%s) is not a listed known finding of %s" % (uid, why, prop)))
 
-    for d in sr.disagree:
-        report("correspondence", d[0], d[1], d[2], d[3])
-    for d in sr.oracle_viol:
+    # oracle violations first: they carry a concrete failing input
+    for d in sr.oracle_viol[:3]:
         report("oracle", d[0], d[1], d[2], d[3], d[4] if len(d) > 4 else None)
+    for d in sr.disagree[:max(1, 3 - len(sr.oracle_viol))]:
+        report("correspondence", d[0], d[1], d[2], d[3])
+    nviol = max(nviol, (0 if lean_ok else 1) + len(sr.oracle_viol) + len(sr.disagree))
 
     # ---- evidence
     wall = time.time() - t0
